@@ -7,6 +7,7 @@ import (
 	"fmt"
 	"os"
 	"time"
+	"verifharness/internal/pbt"
 
 	"github.com/gdamore/tcell/v2"
 	"github.com/gdamore/tcell/v2/terminfo"
@@ -36,7 +37,7 @@ func RunReads(ti *terminfo.Terminfo, charset string, reads [][]byte, deferPoll b
 		go func() { s.Fini(); close(done) }()
 		select {
 		case <-done:
-		case <-time.After(10 * time.Second):
+		case <-pbt.After(10 * time.Second):
 		}
 	}()
 	for s.HasPendingEvent() {
@@ -76,8 +77,9 @@ func RunReads(ti *terminfo.Terminfo, charset string, reads [][]byte, deferPoll b
 		}
 	}
 	idle := 0
-	deadline := time.Now().Add(20 * time.Second)
-	for len(got) < want && idle < 1500 && time.Now().Before(deadline) {
+	deadline := time.Now().Add(pbt.Scaled(20 * time.Second))
+	idleMax := int(pbt.Scaled(1500*time.Millisecond) / time.Millisecond)
+	for len(got) < want && idle < idleMax && time.Now().Before(deadline) {
 		n := len(got)
 		take()
 		if len(got) == n {
